@@ -29,6 +29,7 @@
 #include "a/a.h"
 #include "a/linalg.h"
 #include <float.h>
+#include <sys/mman.h>
 
 _Static_assert(sizeof(a_real) == sizeof(double) && sizeof(double) == 8, "C09 harness assumes a_real == double");
 
@@ -764,6 +765,46 @@ static void flush_counts(void)
     n_cells = n_guard = n_input = n_t1t1 = n_t1t2 = n_t2t2 = 0;
 }
 
+
+/* Diagonal extraction at the extreme dimensions of a_uint.  a_real_diag2 reads only min(m, n) cells, so a 2 x (2^32 - 1) matrix can
+   be real without costing memory: an anonymous mapping that is written at its diagonal cells only (everything else reads as zero
+   from the shared zero page).  "For all dimensions >= 1": a row step computed in 32 bits (n + 1 wraps to 0 for n = UINT_MAX,
+   seeded change C09-I) is bit-identical for every allocatable dense shape. */
+static void run_diag2_extreme(vf_rng *r)
+{
+    char call[160];
+    static unsigned const wide[] = {UINT_MAX, UINT_MAX - 1, 0x80000000u, 0x80000001u, 0x7FFFFFFFu, 0xFFFF0000u, 0x10001u};
+    for (unsigned t = 0; t < sizeof wide / sizeof wide[0]; ++t)
+    {
+        for (int tall = 0; tall < 2; ++tall)
+        {
+            unsigned const sm = (unsigned)vf_range(r, 1, 4), m = tall ? wide[t] : sm, n = tall ? sm : wide[t], k = sm;
+            size_t const cells = tall ? (size_t)(k - 1) * ((size_t)n + 1) + 1 : (size_t)m * n; /* a tall matrix is only needed up to its last diagonal cell */
+            size_t const bytes = ((cells * sizeof(a_real) + 4095) & ~(size_t)4095) + 4096;
+            a_real *A = (a_real *)mmap(NULL, bytes, PROT_READ | PROT_WRITE, MAP_PRIVATE | MAP_ANONYMOUS | MAP_NORESERVE, -1, 0);
+            a_real want[4], got[5];
+            if (A == MAP_FAILED) { VF_COUNT("extreme-dimension-mapping-refused"); continue; }
+            for (unsigned i = 0; i < k; ++i)
+            {
+                want[i] = (a_real)(1 + vf_below(r, 1000)) + (a_real)i / 8;
+                A[(size_t)i * ((size_t)n + 1)] = want[i];
+            }
+            for (unsigned i = 0; i < 5; ++i) { got[i] = (a_real)-777; }
+            snprintf(call, sizeof(call), "a_real_diag2(m=%u,n=%u) sparse mapping", m, n);
+            vf_log("%s", call);
+            a_real_diag2(m, n, A, got);
+            ++vf.evals;
+            VF_COUNT("diag2-at-extreme-dimensions");
+            for (unsigned i = 0; i < k; ++i)
+            {
+                if (got[i] != want[i]) { vf_viol("a_real_diag2/extreme-dimension/wrong-entry", "%s: a[%u] = %g, A[%u][%u] = %g", call, i, (double)got[i], i, i, (double)want[i]); break; }
+            }
+            if (got[k] != (a_real)-777) { vf_viol("a_real_diag2/extreme-dimension/writes-past-min", "%s: a[%u] was written", call, k); }
+            munmap(A, bytes);
+        }
+    }
+}
+
 static void vf_case(uint64_t c, vf_rng *r)
 {
     plan_t const p = plan[c];
@@ -845,6 +886,7 @@ static void vf_case(uint64_t c, vf_rng *r)
                 run_rect(q, q, (int)vf_below(r, CT_COUNT), r);
             }
             VF_COUNT("rect-kernels-with-one-large-dimension");
+            if (p.arg % 8 == 1) { run_diag2_extreme(r); }
         }
         VF_COUNT("random-rect-batches");
         break;
